@@ -376,6 +376,21 @@ def cascade_cases(thorough=False):
     return cases
 
 
+def longname_cases():
+    """label, procedure and function names of 30 .. 300 characters, referenced by every kind of instruction (a listing line, a symbol
+    table entry or a diagnostic that is built in a buffer of fixed size shows here)"""
+    cases = []
+    for n in (30, 50, 59, 60, 61, 70, 79, 80, 81, 120, 300):
+        name = ('long_label_' + 'abcdefghij' * 40)[:n]
+        for kind in ('', 'PROC', 'FUNC'):
+            prog = [ref('BR', 'go'), lab('sp'), data(150000), lab('go'), ref('LDAP', name), ref('BRZ', name), imm('LDAC', 1), ref('BRN', name), ref('BR', name)] + filler(20) + \
+                   [lab(name, kind), imm('LDAC', 70000), ref('LDAC', 'w' + name), ref('LDAM', 'w' + name), ref('STAM', 'w' + name), opr('BRB'), lab('w' + name), data(-5)]
+            cases.append({'id': 'longname:%d:%s' % (n, kind or 'label'), 'prog': prog})
+    for c in cases:
+        c['src'] = src_of(c['prog'])
+    return cases
+
+
 def value_list(rng, nrandom):
     vals = set([0, -1, 1, 2 ** 31 - 1, -2 ** 31, 2 ** 31 - 2, -2 ** 31 + 1, -2 ** 31 + 2])
     for k in range(1, 8):
@@ -440,7 +455,7 @@ def layout_cases(tier, d, rng):
         # every coupled layout is ASSEMBLED (non-termination needs no oracle); a seeded third is walked by TLC
         for c in cc:
             c['notlc'] = rng.random() > 0.33
-    cases = sweep_cases(thorough) + cc + cascade_cases(thorough) + random_cases(rng, 2500 if not thorough else 15000)
+    cases = sweep_cases(thorough) + cc + cascade_cases(thorough) + longname_cases() + random_cases(rng, 2500 if not thorough else 15000)
     vals = value_list(rng, 300 if not thorough else 20000)
     for m in ('LDAC', 'LDBC', 'LDAM', 'BR', 'LDAP', 'STAI'):
         for off in range(0, len(vals), 700):
